@@ -103,9 +103,9 @@ theorem innerBatch_shape (db : Db) : ∀ ks : List Bytes, ReadsThenWrite (innerB
     batch makes are: PreLock, one Lock per resolved key in request order, PostLock, reads followed by
     at most one write, one Unlock per key in reverse order — or nothing at all when the request is
     refused before the rules (malformed, unknown/forbidden account, duplicate key). -/
-theorem C04_trace_is_protocol (s : Inst) (c : String) (items : List (Addr × AttData)) :
-    traceAtts s c items = [] ∨
-    ∃ (keys : List Bytes) (inner : List LTok), traceAtts s c items = [.pre] ++ keys.map .lock ++ [.post] ++ inner ++ keys.reverse.map .unlock ∧
+theorem C04_trace_is_protocol (s : Inst) (c : String) (items : List (Addr × AttData)) (lf : Bool) :
+    traceAtts s c items lf = [] ∨
+    ∃ (keys : List Bytes) (inner : List LTok), traceAtts s c items lf = [.pre] ++ keys.map .lock ++ [.post] ++ inner ++ keys.reverse.map .unlock ∧
       ReadsThenWrite inner := by
   unfold traceAtts
   split
